@@ -1,20 +1,23 @@
-import Revm.Proofs.Bundle
+import Revm.Proofs.BundleInvRevert
 /-! C17 — bundle reverts record the exact values before each merged transition.
 
-Full statements: `Spec.Bundle.RevertKCorrectStatement` (per-block pre-values) and
-`Spec.Bundle.RevertJEqualsPrefixStatement` (`revert(j)` ≙ prefix bundle). Neither is proved in general,
-and both are FALSE of the current code on EVM-reachable histories (`_counterexample` theorems below,
-witness request lines in corpus/C17/):
-* F1 — literal reading of `RevertToSlot::Destroyed` (= 0, `to_previous_value`): a revert that wipes
-  storage lists a slot written by the re-creation as `Destroyed`, although the slot was non-zero before
-  the group. Under the reading "Destroyed in a wiping revert = pre-bundle (database) value" the same
-  witness is correct, and the correspondence stream asserts that reading (`c17d`) on every case.
-* F2 — `BundleState::revert(j)` across a storage-wiping revert: the account's original slot values were
-  drained by the destroy, the reverted bundle gets `original = present` (known = Yes omits the slot) or
-  keeps zeroed slots of the later re-creation (known = No writes zeros over database values).
-Proved: structure of `revert(n)` on the revert list; the witnesses. The per-block statement in the
-region "no taken/extended bundle" and `revert(j)` in the region "none of the j reverted blocks wipes
-storage" are carried by the correspondence oracles (`check`, `revert`), stated as Spec columns. -/
+Full statements: `Spec.Bundle.RevertKCorrectStatement` (per-block pre-values, parameterised by the reading
+of `RevertToSlot::Destroyed`) and `Spec.Bundle.RevertJEqualsPrefixStatement` (`revert(j)` ≙ prefix bundle).
+
+PROVED at full strength: `revert_k_correct : RevertKCorrectStatement true` — for every database, both
+state-clear settings, every EVM-reachable history and every merge schedule (bundle built by a fresh `State`),
+block k of `to_plain_state_reverts`, applied to the reference state after group k (unlisted slots of a
+wiping revert read as their pre-bundle value, a `Destroyed` slot of a wiping revert read as its database
+value, as database writers do), gives the reference state before group k; nothing panics. The proof extends
+the invariant of C16 by the revert side: every `AccountRevert` recorded by `update_and_create_revert` leads
+from the current (info, slots) of its address back to those at the previous merge (`RevSem`, `merge_core`).
+PROVED in the region outside finding F1: `revert_k_correct_literal_partial` — the same with the LITERAL
+reading (`Destroyed` = 0, `RevertToSlot::to_previous_value`) for every block in which no wiping revert lists
+a `Destroyed` slot (explicit decidable hypothesis `literalOk`). F1 (`revert_k_literal_counterexample`) shows
+the literal statement `FullStatementRevertK` is false of the code without that hypothesis.
+NOT proved: the second sentence (`revert(j)` = prefix bundle). It is false across a storage-wiping revert
+(F2a, F2b, counterexample theorems); outside it is carried by the correspondence oracle (`revert`).
+Proved for `revert(n)`: its effect on the revert list. -/
 namespace Revm.Props.C17
 open Revm.Model.Bundle Revm.Spec.Bundle Revm.Proofs.Bundle
 
@@ -22,6 +25,37 @@ def FullStatementRevertK : Prop := RevertKCorrectStatement false
 /-- the reading implemented by database writers (`Destroyed` + wipe ⇒ database value) -/
 def FullStatementRevertKDbReading : Prop := RevertKCorrectStatement true
 def FullStatementRevertJ : Prop := RevertJEqualsPrefixStatement
+
+/-- **C17, first sentence, headline** (database reading of `Destroyed` in wiping reverts): all databases,
+all EVM-reachable histories, all merge schedules, both state-clear settings -/
+theorem revert_k_correct : FullStatementRevertKDbReading := revert_k_correct_proof
+
+/-- **C17, first sentence, literal reading, region outside F1**: for every block of the final bundle in
+which no wiping revert lists a `Destroyed` slot (`literalOk`), the block applied with `Destroyed` = 0 to the
+state after its group gives the state before it. Missing for `FullStatementRevertK`: nothing provable — the
+statement without `literalOk` is false of the code (F1 below). -/
+theorem revert_k_correct_literal_partial (db : BMap Info) (sc : Bool) (p0 : Plain) (h : List Group)
+    (hdb : dbMatches db p0) (hwf : plainWF p0) (hr : reachHistory sc p0 h = true) :
+    ∃ l, runHistory { db := db, sc := sc } p0 h = some l ∧
+      ∀ s r, l.getLast? = some (s, r) →
+        ∀ (k : Nat) b before after, s.bundle.reverts[k]? = some b → literalOk b = true →
+          ((p0 :: l.map (·.2))[k]? = some before) → ((l.map (·.2))[k]? = some after) →
+          PlainEq (applyRevertBlock false p0 (revertBlockToPlain b) after) before :=
+  revert_k_literal_proof db sc p0 h hdb hwf hr
+
+/-- the region hypothesis is satisfiable by a non-trivial block: F2b's history (destroy, then re-create in
+the next group) has a wiping revert without `Destroyed` slots; F1's block is outside the region -/
+example : (Wit.runLast { db := Wit.f2bdb, sc := true } Wit.f2bp0 Wit.f2bh).map
+    (fun r => r.1.bundle.reverts.map literalOk) = some [true, true] ∧
+    (Wit.runLast { db := Wit.f1db, sc := true } Wit.f1p0 Wit.f1h).map
+    (fun r => r.1.bundle.reverts.map literalOk) = some [false] := by decide
+
+/-- one block of reverts satisfying the per-address revert semantics maps `after` to `before` (the fold over
+the addresses of `applyRevertBlock`), for the database reading or inside the literal region -/
+theorem revert_block_maps_back (dbr : Bool) (blk : BMap ARevert) (p0 before after : Plain)
+    (h : BlockSem blk p0 before after) (hd : dbr = true ∨ literalOk blk = true) :
+    PlainEq (applyRevertBlock dbr p0 (revertBlockToPlain blk) after) before :=
+  revert_block_correct dbr blk p0 before after h hd
 
 /-- `revert(0)` is the identity -/
 theorem revert_zero (b : BState) : revertN b 0 = b := rfl
